@@ -1043,4 +1043,98 @@ theorem choiceRegister_W {cfg : Cfg} (hg : CfgGood cfg) (f : Nat) (cls : List Cl
       · subst e; exact absurd hl hn0
       · exact i6 c ((h5 c e).mpr hl)
 
+/-! ### await, finish, the loop -/
+
+theorem awaitFiber_W {w : World} {f : Nat} (hm : WM w) (hcur : w.current = some f)
+    (hsrc : LT w.fibers w.runq f = 1 ∨ liveTimer w.fibers w.timers f ∨ liveEntry w.fibers w.ent f) :
+    WInv (awaitFiber w f) := by
+  unfold WM at hm; rw [hcur] at hm
+  refine ⟨?_, fun g hg => by simp [awaitFiber] at hg⟩
+  show M (awaitFiber w f).fibers w.runq w.timers w.ent none
+  apply M_await f hm
+  · intro h; by_cases e : h = f <;> simp [awaitFiber, setFiber, e]
+  · simp [awaitFiber, setFiber]
+  · intro h; by_cases e : h = f <;> simp [awaitFiber, setFiber, e]
+  · intro h e; simp [awaitFiber, setFiber, e]
+  · exact hsrc
+
+theorem finishFiber_W {w : World} {f : Nat} {err : Bool} (hm : WM w) (hcur : w.current = some f) (hq : WQuiet w f) :
+    WInv (finishFiber w f err) := by
+  unfold WM at hm; rw [hcur] at hm
+  refine ⟨?_, fun g hg => by simp [finishFiber] at hg⟩
+  show M (finishFiber w f err).fibers w.runq w.timers w.ent none
+  apply M_finish f hm
+  · intro h; by_cases e : h = f <;> simp [finishFiber, setFiber, e]
+  · cases err <;> simp [finishFiber, setFiber]
+  · intro h; by_cases e : h = f <;> simp [finishFiber, setFiber, e]
+  · intro h e; simp [finishFiber, setFiber, e]
+  · exact ⟨hq.2.1, hq.2.2⟩
+
+/-- the run-phase iteration, field by field -/
+theorem loopRunTask_cases (w : World) :
+    (w.runq = [] ∧ (loopRunTask w).1 = w) ∨
+    (∃ t rest, w.runq = t :: rest ∧ (loopRunTask w).1.runq = rest ∧ (loopRunTask w).1.timers = w.timers ∧
+      (loopRunTask w).1.chans = w.chans ∧
+      (∀ i, i ≠ t.fiber → (loopRunTask w).1.fibers i = w.fibers i) ∧
+      ((loopRunTask w).1.fibers t.fiber).sched = (w.fibers t.fiber).sched ∧
+      ((loopRunTask w).1.fibers t.fiber).canceled = false ∧
+      (((t.expected ≠ (w.fibers t.fiber).sched ∨ fiberCanResume (w.fibers t.fiber) = false) ∧
+          (loopRunTask w).1.current = w.current ∧
+          ((loopRunTask w).1.fibers t.fiber).status = (w.fibers t.fiber).status) ∨
+       (t.expected = (w.fibers t.fiber).sched ∧ fiberCanResume (w.fibers t.fiber) = true ∧
+          (loopRunTask w).1.current = some t.fiber ∧ ((loopRunTask w).1.fibers t.fiber).status = .alive))) := by
+  unfold loopRunTask
+  cases hq : w.runq with
+  | nil => left; exact ⟨rfl, rfl⟩
+  | cons t rest =>
+    right
+    refine ⟨t, rest, rfl, ?_⟩
+    simp only []
+    by_cases hstale : t.expected ≠ (w.fibers t.fiber).sched
+    · have hne : ¬ t.expected = (w.fibers t.fiber).sched := hstale
+      refine ⟨by simp [setFiber, hne], by simp [setFiber, hne], by simp [setFiber, hne], fun i hi => by simp [setFiber, hi, hne], by simp [setFiber, hne],
+        by simp [setFiber, hne], Or.inl ⟨Or.inl hstale, by simp [setFiber, hne], by simp [setFiber, hne]⟩⟩
+    · have hlive : t.expected = (w.fibers t.fiber).sched := by simpa using hstale
+      by_cases hres : fiberCanResume (w.fibers t.fiber) = true
+      · cases hsig : t.sig <;>
+          exact ⟨by simp [setFiber, hlive, hres, hsig], by simp [setFiber, hlive, hres, hsig], by simp [setFiber, hlive, hres, hsig],
+            fun i hi => by simp [setFiber, hi, hlive, hres, hsig], by simp [setFiber, hlive, hres, hsig],
+            by simp [setFiber, hlive, hres, hsig],
+            Or.inr ⟨hlive, hres, by simp [setFiber, hlive, hres, hsig], by simp [setFiber, hlive, hres, hsig]⟩⟩
+      · have hres' : fiberCanResume (w.fibers t.fiber) = false := by simpa using hres
+        exact ⟨by simp [setFiber, hlive, hres'], by simp [setFiber, hlive, hres'], by simp [setFiber, hlive, hres'],
+          fun i hi => by simp [setFiber, hi, hlive, hres'], by simp [setFiber, hlive, hres'],
+          by simp [setFiber, hlive, hres'],
+          Or.inl ⟨Or.inr hres', by simp [setFiber, hlive, hres'], by simp [setFiber, hlive, hres']⟩⟩
+
+theorem ent_of_chans {w w' : World} (h : w'.chans = w.chans) : w'.ent = w.ent := by unfold World.ent; rw [h]
+
+theorem loopRunTask_W {w : World} (hi : WInv w) (hcur : w.current = none) : WInv (loopRunTask w).1 := by
+  obtain ⟨hm, hqq⟩ := hi
+  rcases loopRunTask_cases w with ⟨_, he⟩ | ⟨t, rest, hq, hr, ht, hc, hoth, hs, hcan, hcase⟩
+  · rw [he]; exact ⟨hm, hqq⟩
+  · unfold WM at hm; rw [hcur, hq] at hm
+    have hsall : ∀ h, ((loopRunTask w).1.fibers h).sched = (w.fibers h).sched := by
+      intro h; by_cases e : h = t.fiber
+      · rw [e]; exact hs
+      · rw [hoth h e]
+    rcases hcase with ⟨hwhy, hcur', hst⟩ | ⟨hlive, hres, hcur', hst⟩
+    · refine ⟨?_, fun g hg => by rw [hcur', hcur] at hg; cases hg⟩
+      unfold WM; rw [hr, ht, ent_of_chans hc, hcur', hcur]
+      apply M_pop hm hsall
+      · intro h; by_cases e : h = t.fiber
+        · rw [e]; exact hst
+        · rw [hoth h e]
+      · intro h e; rw [hoth h e]
+      · exact hcan
+      · rcases hwhy with h1 | h1
+        · exact Or.inl h1
+        · right; intro hp; unfold fiberCanResume at h1; rw [hp] at h1; cases h1
+    · obtain ⟨hM, hQ⟩ := M_resume (fb' := (loopRunTask w).1.fibers) hm hsall hlive hst
+        (fun h e => by rw [hoth h e]) (fun h e => by rw [hoth h e]) hcan
+      refine ⟨?_, ?_⟩
+      · unfold WM; rw [hr, ht, ent_of_chans hc, hcur']; exact hM
+      · intro g hg; rw [hcur'] at hg; injection hg with hg; subst hg
+        unfold WQuiet; rw [hr, ht, ent_of_chans hc]; exact hQ
+
 end JanetModel.Ev
